@@ -207,6 +207,7 @@ func (f *renameOnCloseFile) Abort() error {
 	// fsync the directory so the removals survive power loss: a rename that
 	// had already happened (Close failing at its directory fsync) must not
 	// come back without the removal that undid it.
+	verifFS("abort.dirsync", f.finalPath)
 	if err := syncDir(filepath.Dir(f.finalPath)); err != nil {
 		errs = append(errs, err)
 	}
@@ -255,6 +256,7 @@ func (fs *FileSystemDataStore) TombstoneFile(ctx context.Context, filePointerByt
 	// fsync the directory so the removal survives power loss; nothing to
 	// make durable when the pointer had no artifact left.
 	if removed {
+		verifFS("tomb.dirsync", finalPath)
 		if err := syncDir(filepath.Dir(finalPath)); err != nil {
 			errs = append(errs, err)
 		}
@@ -345,6 +347,7 @@ func (fs *FileSystemDataStore) Update(ctx context.Context, writes []WriteOperati
 	// effort like the removals themselves — the files are already gone, so a
 	// failure here must not be reported as an uncommitted update.
 	if removed {
+		verifFS("update.dirsync", fs.rootDir)
 		syncDir(fs.rootDir)
 	}
 	verifFS("update.done", fs.rootDir)
